@@ -211,12 +211,41 @@ func (f *FBaseProcessorFunction) SendError(fctx FContext, oprot *FProtocol, kind
 
 func (f *FBaseProcessorFunction) sendError(ctx context.Context, fctx FContext, oprot *FProtocol, kind int32, method, message string) error {
 	err := thrift.NewTApplicationException(kind, message)
-	oprot.WriteResponseHeader(fctx)
-	oprot.WriteMessageBegin(ctx, method, thrift.EXCEPTION, 0)
-	err.Write(ctx, oprot)
-	oprot.WriteMessageEnd(ctx)
-	oprot.Flush(ctx)
+	if werr := writeException(ctx, oprot, fctx.ResponseHeaders(), method, err); IsErrTooLarge(werr) {
+		// The response headers leave no room for the error within the size
+		// limit (a bounded buffer is empty again after rejecting a write). The
+		// caller is waiting on the op id: answer with that header only.
+		resetProtocol(oprot)
+		opid, _ := fctx.ResponseHeader(opIDHeader)
+		writeException(ctx, oprot, map[string]string{opIDHeader: opid}, method, err)
+	}
 	return err
+}
+
+// writeException writes an EXCEPTION message, stopping at the first error.
+func writeException(ctx context.Context, oprot *FProtocol, headers map[string]string, method string, ex thrift.TApplicationException) error {
+	if err := oprot.writeHeader(headers); err != nil {
+		return err
+	}
+	if err := oprot.WriteMessageBegin(ctx, method, thrift.EXCEPTION, 0); err != nil {
+		return err
+	}
+	if err := ex.Write(ctx, oprot); err != nil {
+		return err
+	}
+	if err := oprot.WriteMessageEnd(ctx); err != nil {
+		return err
+	}
+	return oprot.Flush(ctx)
+}
+
+// resetProtocol clears the write state of protocols that keep one. Thrift's
+// JSON protocols write through a bufio.Writer, which keeps a failed Flush as a
+// sticky error, and track their nesting state.
+func resetProtocol(oprot *FProtocol) {
+	if r, ok := oprot.TProtocol.(interface{ Reset() }); ok {
+		r.Reset()
+	}
 }
 
 // SendReply ...
@@ -245,12 +274,8 @@ func (f *FBaseProcessorFunction) SendReply(fctx FContext, oprot *FProtocol, meth
 
 func (f *FBaseProcessorFunction) trapError(ctx context.Context, fctx FContext, oprot *FProtocol, method string, err error) error {
 	if IsErrTooLarge(err) {
-		// Thrift's JSON protocols write through a bufio.Writer, which keeps a
-		// failed Flush as a sticky error (and the protocol keeps its nesting
-		// state): start the error reply from a clean protocol state.
-		if r, ok := oprot.TProtocol.(interface{ Reset() }); ok {
-			r.Reset()
-		}
+		// start the error reply from a clean protocol state
+		resetProtocol(oprot)
 		f.sendError(ctx, fctx, oprot, APPLICATION_EXCEPTION_RESPONSE_TOO_LARGE, method, err.Error())
 		return nil
 	}
